@@ -53,8 +53,12 @@ Lemma shape_store_step s i : shape s -> shape (store_step s i).
 Proof.
   intros H. unfold store_step. destruct (inflight s) eqn:E; [|exact H].
   destruct (flushing s) as [[g fb]|] eqn:Ef; [|exact H]. destruct (nth_error fb (N.to_nat i)) as [[k v]|]; [|exact H].
+  destruct (is_cne (fpne s) (k, v)); [exact H|].
   destruct H as [? ? ? ? ? ? ?]; constructor; cbn; assumption.
 Qed.
+
+Lemma shape_set_pne s p : shape s -> shape (set_pne s p).
+Proof. intros [? ? ? ? ? ? ?]; constructor; cbn; assumption. Qed.
 
 Lemma shape_set_tm s b pe : shape s -> shape (set_tm s b pe).
 Proof. intros [? ? ? ? ? ? ?]; constructor; cbn; assumption. Qed.
@@ -111,6 +115,8 @@ Proof.
   - cbn [fst]. apply shape_tm_start; exact H.
   - cbn [fst]. apply shape_set_tm; exact H.
   - exact H.
+  - destruct (is_nil v); cbn [fst]; [exact H|]. apply shape_set_pne, shape_upd_mem; exact H.
+  - exact H.
 Qed.
 
 Lemma shape_run_from P s ops : shape s -> shape (run_from P s ops).
@@ -154,10 +160,12 @@ Proof.
   - exact H.
   - exact H.
   - cbn [fst]. unfold store_step. destruct (inflight s); [|exact H]. destruct (flushing s) as [[g fb]|]; [|exact H].
-    destruct (nth_error fb (N.to_nat i)) as [[k v]|]; exact H.
+    destruct (nth_error fb (N.to_nat i)) as [[k v]|]; [destruct (is_cne (fpne s) (k, v))|]; exact H.
   - cbn [fst]. unfold complete_exist. destruct (inflight s) eqn:E; [|exact H]. cbn. apply (closed_complete s false H).
   - cbn [fst]. unfold tm_start. destruct (_ && _); exact H.
   - exact H.
+  - exact H.
+  - destruct (is_nil v); exact H.
   - exact H.
 Qed.
 
